@@ -31,10 +31,10 @@ def main():
     mod = importlib.import_module(f"checks.{a.prop.lower()}")
     try:
         rc = mod.run(tier, seed)
-    except Exception:
+    except Exception as e:
         import traceback
         traceback.print_exc()
-        print(f"CHECKER-ERROR {a.prop}: engine exception")
+        print(f"CHECKER-ERROR {a.prop}: engine exception ({type(e).__name__}: {str(e)[:200]})")
         rc = 3
     sys.exit(rc)
 
